@@ -9,6 +9,9 @@ from gen import *
 import gen as _gen
 
 
+NCHUNK = 8
+
+
 def _method(tree, cls, name):
     cl = [n for n in tree.body if isinstance(n, ast.ClassDef) and n.name == cls]
     need(len(cl) == 1, "expected exactly one class %s" % cls)
@@ -81,10 +84,18 @@ def gen_nff():
     for f in os.listdir(_gen.OUT):
         if f.startswith("Nff_") and f.endswith(".v") and f[:-2] not in keep:
             os.remove(os.path.join(_gen.OUT, f))
+    # the index in NCHUNK parts, so that the sweeps over the tables compile in parallel
+    entries = ["(%s, %s)" % (cstr(fn), v) for fn, _, v in mods]
+    per = (len(entries) + NCHUNK - 1) // NCHUNK
+    parts = []
+    for k in range(NCHUNK):
+        parts.append("Definition nff_files_%d : list (string * list string) := %s."
+                     % (k, clist(entries[k * per:(k + 1) * per])))
     body = "\n".join([
         "From PT.Gen Require Import %s." % " ".join(m for _, m, _ in mods),
-        "Definition nff_files : list (string * list string) := %s."
-        % clist(["(%s, %s)" % (cstr(fn), v) for fn, _, v in mods]),
+    ] + parts + [
+        "Definition nff_files : list (string * list string) := (%s)%%list."
+        % " ++ ".join("nff_files_%d" % k for k in range(NCHUNK)),
         "Definition nff_skiprows_text : string := %s." % cstr(skip),
         "Definition nff_sentinel_text : string := %s." % cstr(sentinel),
         "Definition nff_scale_text : string := %s." % cstr(scale),
